@@ -471,6 +471,12 @@ fn check(args: &[String]) -> i32 {
             harness_errors.push(format!("case {idx} exceeded the watchdog and exited {:?} when re-run", r));
         }
     }
+    for (idx, st) in crashed_cases.iter().take(5) {
+        println!("note: worker died in case {idx} ({st})");
+    }
+    for idx in hung_cases.iter().take(5) {
+        println!("note: case {idx} exceeded the watchdog budget");
+    }
     let mut skipped_crashes = 0u64;
     if world.reports_crashes() {
         findings.extend(confirmed);
